@@ -691,6 +691,20 @@ func (c *evalCtx) evalCall(x *ECall) TV {
 			c.fail("iface() of untyped value")
 		}
 		return TV{T: e.box(v.T, v.Typ), Typ: types.NewInterfaceType(nil, nil), Sort: "Iface"}
+	case "addr":
+		// addr(x): the address of the address-taken local variable x
+		id, ok := x.Args[0].(*EIdent)
+		if !ok || c.block == nil {
+			c.fail("addr(local)")
+		}
+		for blk := c.block; blk != nil; blk = blk.Idom() {
+			for _, ins := range blk.Instrs {
+				if al, ok := ins.(*ssa.Alloc); ok && al.Comment == id.Name {
+					return TV{T: e.term(al), Typ: al.Type(), Sort: "Ref"}
+				}
+			}
+		}
+		c.fail("addr(%s): no such address-taken local", id.Name)
 	case "deref":
 		v := c.eval(x.Args[0])
 		if v.Typ == nil {
